@@ -221,7 +221,101 @@ func c16ReceiveErrorVsCleanup(x *mc.Cell) {
 	}
 }
 
+// c16ControlWhileOpening: our own graphsync request for a channel has been handed to graphsync, which has not yet
+// called back that it was opened (held by the harness); meanwhile the application closes or pauses the channel
+// from another goroutine; then graphsync gets round to the request. Oracle (C16: "pause, resume and cancel act on
+// the channel's current request"): once everything has returned, a control call that reported success has acted on
+// that request - a successful close leaves no live graphsync request of the channel behind, a successful pause
+// has paused it.
+func c16ControlWhileOpening(x *mc.Cell) {
+	for _, control := range []string{"close", "pause"} {
+		for _, restart := range []bool{false, true} {
+			control, restart := control, restart
+			rep := map[string]any{"control": control, "opening-is-a-restart": restart, "cell": "control-while-opening"}
+			x.Executions++
+			pv, stack := mc.Bubble(x.T, func() {
+				w := NewWorld()
+				defer w.Close()
+				ctx := context.Background()
+				chid := w.Chans[0]
+				if restart {
+					_ = w.T.OpenChannel(ctx, doubles.PeerB, chid, root(), doubles.AllSelector(), nil, reqMsg(chid.ID, false, true))
+					mc.Wait()
+				}
+				hold := make(chan struct{})
+				released := false
+				release := func() {
+					if !released {
+						released = true
+						close(hold)
+					}
+				}
+				defer release()
+				w.GS.HoldHook = hold
+				var oerr, cerr error
+				opn := mc.Go(func() {
+					oerr = w.T.OpenChannel(ctx, doubles.PeerB, chid, root(), doubles.AllSelector(), nil, reqMsg(chid.ID, restart, true))
+				})
+				mc.Wait()
+				w.GS.HoldHook = nil
+				var newReq *doubles.FakeReq
+				if len(w.GS.Reqs) > 0 {
+					newReq = w.GS.Reqs[len(w.GS.Reqs)-1]
+				}
+				if opn.Returned() || newReq == nil {
+					x.Note("open_did_not_wait_for_the_opened_callback", 1)
+					return
+				}
+				mark := w.GS.NumCalls()
+				ctl := mc.Go(func() {
+					if control == "close" {
+						cerr = w.T.CloseChannel(ctx, chid)
+					} else {
+						cerr = w.T.PauseChannel(ctx, chid)
+					}
+				})
+				mc.Wait()
+				early := ctl.Returned()
+				release()
+				mc.Wait()
+				if !opn.Returned() || !ctl.Returned() {
+					n := mc.Unblock()
+					x.Violate("C20", "control-while-opening;did-not-return;control="+control, fmt.Sprintf("open returned=%v control returned=%v (%d parked)", opn.Returned(), ctl.Returned(), n), rep)
+					x.Fatal = true
+					return
+				}
+				x.Premise++
+				want := map[string]string{"close": "cancel", "pause": "pause"}[control]
+				acted := false
+				for _, c := range w.GS.CallsFrom(mark) {
+					if c.Op == want && c.Req == newReq.Num {
+						acted = true
+					}
+				}
+				live := false
+				for _, num := range w.GS.LiveRequests() {
+					if num == newReq.Num {
+						live = true
+					}
+				}
+				x.Outcome(fmt.Sprintf("%s|restart=%v|returned-before-opened=%v|acted=%v|open-err=%v|ctl-err=%v", control, restart, early, acted, oerr != nil, cerr != nil))
+				ctxs := fmt.Sprintf("control=%s (returned %v, before the request was opened: %v), open returned %v; graphsync calls since: %v", control, cerr, early, oerr, w.GS.CallsFrom(mark))
+				if cerr == nil && oerr == nil && !acted {
+					x.Violate("C16", fmt.Sprintf("control-while-opening;reported-success-without-acting-on-the-request;control=%s;restart=%v", control, restart), ctxs, rep)
+				}
+				if control == "close" && cerr == nil && oerr == nil && live {
+					x.Violate("C16", fmt.Sprintf("control-while-opening;closed-channel-keeps-a-live-request;restart=%v", restart), ctxs, rep)
+				}
+			})
+			if pv != nil {
+				x.Violate("C16", "panic;control-while-opening", fmt.Sprintf("%v\n%s", pv, stack), rep)
+			}
+		}
+	}
+}
+
 func init() {
+	mc.Register("C16", "control-calls-while-the-request-is-being-opened", "both", c16ControlWhileOpening)
 	mc.Register("C16", "control-calls-during-a-restart-request", "both", c16ControlDuringRestart)
 	mc.Register("C16", "receive-error-listener-vs-cleanup", "both", c16ReceiveErrorVsCleanup)
 }
